@@ -112,8 +112,22 @@ def _resolve(v, h):
     return v
 
 
+class _OpaqueStream(object):
+    """A stream given as an object (library use): callable, and not
+    representable in JSON - `options` / `get` on its watcher must still be
+    answered by one well-formed (error) reply."""
+    def __call__(self, data):
+        pass
+
+    def close(self):
+        pass
+
+
 def execute_daemon(case):
-    hc = {"watchers": [dict(w) for w in BASE_WATCHERS], "ops": [],
+    hc = {"watchers": [dict(w) for w in BASE_WATCHERS] + [
+        {"name": "o", "numprocesses": 1, "autostart": False,
+         "graceful_timeout": 0.1,
+         "stdout_stream": {"stream": _OpaqueStream()}}], "ops": [],
           "tape": case.get("tape") or []}
     h = History(hc)
     w = h.world
@@ -199,6 +213,13 @@ def execute_daemon(case):
                     viols.append(Violation(
                         'C06:bad-status:' + sk, 'reply status %r for %r' % (
                             st, payload[:120])))
+            if w.framing_errors:
+                fe = w.framing_errors[0]
+                viols.append(Violation(
+                    'C06:malformed-multipart-reply:' + sk,
+                    'the reply to %r was not sent as [routing id, one JSON '
+                    'frame]: frames %r' % (payload[:120], fe["frames"])))
+                del w.framing_errors[:]
             rep0 = req.reply()
             plain_ok = (rep0 is not None and rep0.get('status') == 'ok'
                         and sync == 1 and not waiting)
@@ -286,7 +307,7 @@ def _sigclass(value, req, waiting, w):
 # generators (daemon side)
 # ---------------------------------------------------------------------------
 
-NAMES = ["a", "b", "h", "g", "A", "zz", "", "*", "a*", 7, None, ["a"],
+NAMES = ["a", "b", "h", "g", "o", "o", "A", "zz", "", "*", "a*", 7, None, ["a"],
          {"x": 1}]
 POOLS = {
     "name": NAMES,
